@@ -343,4 +343,66 @@ theorem c11_emitted_location_slots_distinct {cfg : RichCfg} {secs : List RSectio
       subst hab
       exact (hfresh a ((placed_idx_sublist _ ress).subset hb)).1 ha
 
+theorem placed_cuwp_idx_sublist (placement : List RCuwp) (ress : List Res) :
+    List.Sublist
+      (((placement.zip ress).filterMap fun (c, r) => match r with
+          | .placed s => some ({ c with idx := some s } : RCuwp)
+          | .skipped => none).filterMap (·.idx))
+      (placedSlots ress) := by
+  induction placement generalizing ress with
+  | nil => simp
+  | cons l ls ih =>
+    cases ress with
+    | nil => simp
+    | cons r rs =>
+      cases r with
+      | placed s =>
+        simp only [List.zip_cons_cons, List.filterMap_cons, placedSlots]
+        exact List.Sublist.cons₂ _ (ih rs)
+      | skipped =>
+        simp only [List.zip_cons_cons, List.filterMap_cons, placedSlots]
+        exact ih rs
+
+/-- **no two unit-property sets of the emitted table sit on one slot**, for every rich map and every
+iteration order (with the usage-table theorem above: the emitted UPRP / UPUS pair is consistent) -/
+theorem c11_emitted_cuwp_slots_distinct {cfg : RichCfg} {secs : List RSection} {order : Option (List Nat)}
+    {cuwps : List RCuwp} (h : rebuildUprp cfg secs order = .ok cuwps)
+    (table : List RCuwp)
+    (ht : secs.filter (isSectionNamed nUPRP) = [] ∧ table = [] ∨ secs.filter (isSectionNamed nUPRP) = [.uprp table])
+    (hnd : (table.filterMap (·.idx)).Nodup) :
+    (cuwps.filterMap (·.idx)).Nodup := by
+  have main : ∀ (tbl : List RCuwp), (tbl.filterMap (·.idx)).Nodup →
+      (if tbl.any (·.idx.isNone) then (.error .assert : R (List RCuwp)) else
+        let found := (secs.filter (fun s => !isSectionNamed nUPRP s)).flatMap (sectionCuwps cfg)
+        let batch := allocOrder order (dedupBy (fun a b => a.key == b.key) found)
+        let need := batch.filter fun c => c.idx.isSome || !(tbl.any fun t => t.key == c.key)
+        let placement := need.filter (·.idx.isSome) ++ need.filter (·.idx.isNone)
+        match allocate cfg.uprpCfg (tbl.filterMap (·.idx)) (placement.map fun c => match c.idx with | some i => Req.carry i | none => Req.fresh) with
+        | .error e => .error e
+        | .ok (ress, _) =>
+          .ok (tbl ++ (placement.zip ress).filterMap fun (c, r) => match r with
+            | .placed s => some { c with idx := some s }
+            | .skipped => none)) = .ok cuwps → (cuwps.filterMap (·.idx)).Nodup := by
+    intro tbl hn hh
+    split at hh
+    · simp at hh
+    · simp only at hh
+      split at hh
+      · simp at hh
+      · rename_i ress st hal
+        simp only [Except.ok.injEq] at hh
+        subst hh
+        obtain ⟨hnd2, hfresh⟩ := Props.C09.c09_sound _ _ _ hal
+        rw [List.filterMap_append]
+        refine List.nodup_append.mpr ⟨hn, (placed_cuwp_idx_sublist _ ress).nodup hnd2, ?_⟩
+        intro a ha b hb hab
+        subst hab
+        exact (hfresh a ((placed_cuwp_idx_sublist _ ress).subset hb)).1 ha
+  unfold rebuildUprp at h
+  rcases ht with ⟨h0, rfl⟩ | h1
+  · simp only [h0] at h
+    exact main [] (by simp) h
+  · simp only [h1] at h
+    exact main table hnd h
+
 end Richchk.Props.C11
